@@ -102,4 +102,24 @@ func init() {
 		variant{Name: "qseq-appendcolumns-retains-each", File: qaln, Find: "\t\ts.Seq = append(s.Seq, append([]alphabet.QLetter(nil), c...))\n", Replace: "\t\ts.Seq = append(s.Seq, c)\n", Rule: "fresh/retain", Key: "alignment.(*QSeq).AppendEach/caller-buffers"},
 		variant{Name: "benign-column-copy-make", File: qaln, Find: "\t\ts.Seq = append(s.Seq, append([]alphabet.QLetter(nil), c...))\n", Replace: "\t\tcol := make([]alphabet.QLetter, len(c))\n\t\tcopy(col, c)\n\t\ts.Seq = append(s.Seq, col)\n"},
 	)
+	selftests["C09"] = []variant{
+		{Name: "nw-qletters-wrong-matrix-cell", File: "align/nw_qletters.go", Find: "\t\t\tupScore := table[p-c] + la[rVal*let]\n", Replace: "\t\t\tupScore := table[p-c] + la[qVal*let]\n", Rule: "sibling", Key: "align.NW/alignLetters~alignQLetters"},
+		{Name: "sw-letters-endcell-strict", File: "align/sw_letters.go", Find: "\t\t\t\tif score >= maxS && score == diagScore {", Replace: "\t\t\t\tif score > maxS && score == diagScore {", Rule: "sibling", Key: "align.SW/alignLetters~alignQLetters"},
+		{Name: "swaffine-size-check-deleted", File: "align/sw_affine_letters.go", Find: "\tlet := len(a.Matrix)\n\tif let < alpha.Len() {\n\t\treturn nil, ErrMatrixWrongSize{Size: let, Len: alpha.Len()}\n\t}\n", Replace: "\tlet := len(a.Matrix)\n", Rule: "argcheck", Key: "align.SWAffine.alignLetters/matrix-size"},
+		{Name: "nw-square-check-deleted", File: "align/nw_qletters.go", Find: "\tfor _, row := range a {\n\t\tif len(row) != let {\n\t\t\treturn nil, ErrMatrixNotSquare\n\t\t}\n\t\tla = append(la, row...)\n\t}\n\n\tindex := alpha.LetterIndex()\n\tfor i := range rSeq {", Replace: "\tfor _, row := range a {\n\t\tla = append(la, row...)\n\t}\n\n\tindex := alpha.LetterIndex()\n\tfor i := range rSeq {", Rule: "argcheck", Key: "align.NW.alignQLetters/matrix-square"},
+		{Name: "sw-gapped-check-deleted", File: "align/sw.go", Find: "\tif alpha.IndexOf(alpha.Gap()) != 0 {\n\t\treturn nil, ErrNotGappedAlphabet\n\t}\n", Replace: "", Rule: "argcheck", Key: "align.SW.Align/ErrNotGappedAlphabet"},
+		{Name: "fitted-validation-loop-q-deleted", File: "align/fitted_letters.go", Find: "\tfor i := range qSeq {\n\t\tif index[qSeq[i]] < 0 {\n\t\t\treturn nil, fmt.Errorf(\"align: illegal letter %q at position %d in qSeq\", qSeq[i], i)\n\t\t}\n\t}\n", Replace: "", Rule: "livguard", Key: "align.(Fitted).alignLetters/index[qSeq]"},
+		{Name: "nwaffine-validation-skips-error", File: "align/nw_affine_qletters.go", Find: "\tfor i := range rSeq {\n\t\tif index[rSeq[i].L] < 0 {\n\t\t\treturn nil, fmt.Errorf(\"align: illegal letter %q at position %d in rSeq\", rSeq[i].L, i)\n\t\t}\n\t}\n", Replace: "\tfor i := range rSeq {\n\t\tif index[rSeq[i].L] < 0 {\n\t\t\tcontinue\n\t\t}\n\t}\n", Rule: "livguard", Key: "align.(NWAffine).alignQLetters/index[rSeq]"},
+		{Name: "sw-fill-check-and-traceback", File: "align/sw_letters.go", Find: "\t\t\tif rVal < 0 {\n\t\t\t\treturn nil, fmt.Errorf(\"align: illegal letter %q at position %d in rSeq\", rSeq[i-1], i-1)\n\t\t\t}\n", Replace: "", Rule: "livguard", Key: "align.(SW).alignLetters/index[rSeq]"},
+		// benign
+		{Name: "benign-local-renamed-one-variant", File: "align/nw_letters.go", Find: "\t\t\tdiagScore := table[p-c-1] + la[rVal*let+qVal]\n\t\t\tupScore := table[p-c] + la[rVal*let]\n\t\t\tleftScore := table[p-1] + la[qVal]\n\n\t\t\ttable[p] = max3(diagScore, upScore, leftScore)", Replace: "\t\t\td := table[p-c-1] + la[rVal*let+qVal]\n\t\t\tupScore := table[p-c] + la[rVal*let]\n\t\t\tleftScore := table[p-1] + la[qVal]\n\n\t\t\ttable[p] = max3(d, upScore, leftScore)"},
+		{Name: "benign-error-string-reworded", File: "align/nw_letters.go", Find: "\t\tif index[rSeq[i]] < 0 {\n\t\t\treturn nil, fmt.Errorf(\"align: illegal letter %q at position %d in rSeq\", rSeq[i], i)", Replace: "\t\tif index[rSeq[i]] < 0 {\n\t\t\treturn nil, fmt.Errorf(\"align: bad letter %q at %d in reference\", rSeq[i], i)"},
+		{Name: "benign-validation-by-allvalid", File: "align/fitted_letters.go", Find: "\tfor i := range qSeq {\n\t\tif index[qSeq[i]] < 0 {\n\t\t\treturn nil, fmt.Errorf(\"align: illegal letter %q at position %d in qSeq\", qSeq[i], i)\n\t\t}\n\t}\n", Replace: "\tif ok, pos := alpha.AllValid(qSeq); !ok {\n\t\treturn nil, fmt.Errorf(\"align: illegal letter %q at position %d in qSeq\", qSeq[pos], pos)\n\t}\n", More: []edit{{"align/fitted_qletters.go", "\tfor i := range qSeq {\n\t\tif index[qSeq[i].L] < 0 {\n\t\t\treturn nil, fmt.Errorf(\"align: illegal letter %q at position %d in qSeq\", qSeq[i].L, i)\n\t\t}\n\t}\n", "\tif ok, pos := alpha.AllValidQLetter(qSeq); !ok {\n\t\treturn nil, fmt.Errorf(\"align: illegal letter %q at position %d in qSeq\", qSeq[pos].L, pos)\n\t}\n"}}},
+	}
+	const kmer = "index/kmerindex/kmerindex.go"
+	selftests["C10"] = []variant{
+		{Name: "foreach-preload-unchecked", File: kmer, Find: "\t\tcurrentBase = ki.lookUp[s.Seq[basePosition]]\n\t\tif currentBase >= 0 {\n\t\t\tkmer = (kmer << 2) | Kmer(currentBase)\n\t\t} else {\n\t\t\tkmer = 0\n\t\t\thigh = basePosition + 1\n\t\t}\n", Replace: "\t\tcurrentBase = ki.lookUp[s.Seq[basePosition]]\n\t\tkmer = (kmer << 2) | Kmer(currentBase)\n", Rule: "livguard", Key: "kmerindex.(*Index).ForEachKmerOf/index["},
+		{Name: "kmerof-check-after-use", File: kmer, Find: "\t\tx := lookUp[v]\n\t\tif x < 0 {\n\t\t\treturn 0, ErrBadKmerText\n\t\t}\n\t\tkmer = (kmer << 2) | Kmer(x)\n", Replace: "\t\tx := lookUp[v]\n\t\tkmer = (kmer << 2) | Kmer(x)\n\t\tif x < 0 {\n\t\t\treturn 0, ErrBadKmerText\n\t\t}\n", Rule: "livguard", Key: "kmerindex.KmerOf/index["},
+		{Name: "benign-check-as-positive-branch", File: kmer, Find: "\t\tx := lookUp[v]\n\t\tif x < 0 {\n\t\t\treturn 0, ErrBadKmerText\n\t\t}\n\t\tkmer = (kmer << 2) | Kmer(x)\n", Replace: "\t\tx := lookUp[v]\n\t\tif x >= 0 {\n\t\t\tkmer = (kmer << 2) | Kmer(x)\n\t\t} else {\n\t\t\treturn 0, ErrBadKmerText\n\t\t}\n"},
+	}
 }
